@@ -672,6 +672,8 @@ class Daemon(object):
         if uri.object != objectId:
             # (e.g. an id containing '@': the uri, and every proxy made from it, would designate another object)
             raise errors.DaemonError("object id cannot be used in a uri: " + objectId)
+        if objectId == core.DAEMON_NAME:
+            raise errors.DaemonError("the id of the daemon's own object is reserved")
         if inspect.isclass(obj_or_class):
             if weak: raise TypeError("Classes cannot be registered with weak=True.")
             if not hasattr(obj_or_class, "_pyroInstancing"):
